@@ -21,6 +21,10 @@ Definition universe := gmap N blk.
 
 (** What the store holds for a block id (presence in [known] = header stored). *)
 Inductive skind := SHdr | SFull.
+(** Modelling assumption: a block id determines its body.  (A v2 block id covers the
+    header with the commitment but not the body, so a copy with an altered body has the
+    same id; such a copy never validates.  Histories that submit such same-id copies are
+    exercised by the harness monitors only, not by this model.) *)
 Record kinfo := KI { kst : option skind; kbody : bool; ksupp : bool }.
 
 (** [best] is the best chain, tip first; its last element is genesis. *)
@@ -197,7 +201,8 @@ Section U.
   (** AddValidatedV2Blocks (manager.go:310-351) under its documented precondition
       (every block v2 and valid against the supplied full states) *)
   Definition store_validated (m : mgr) (b : N) : mgr :=
-    Mgr (<[b := KI (Some SFull) true true]> (known m)) (best m).
+    if has_state m b && on_best m b then m                       (* already applied (fix b5712b1) *)
+    else Mgr (<[b := KI (Some SFull) true true]> (known m)) (best m).
   Definition add_validated (m : mgr) (batch : list N) : mgr * outcome * bool :=
     match batch with
     | [] => (m, Ok, false)
@@ -212,7 +217,7 @@ Section U.
         end
     end.
 
-  (** PruneBlocks (manager.go:500-513): walks down from height-1 while the best-chain
+  (** PruneBlocks (manager.go): walks down from min(height, tip+1)-1 while the best-chain
       block still has a body.  [best] is tip-first, so the block at height h is at
       position (length - 1 - h). *)
   Definition best_at (m : mgr) (h : N) : option N :=
@@ -231,7 +236,9 @@ Section U.
               | Some b => if has_body m b then prune_from (prune_block m b) h' else m
               end
     end.
-  Definition prune (m : mgr) (h : N) : mgr := prune_from m (N.to_nat h).
+  (** heights above the tip hold no blocks: start at the tip (fix 002f45a) *)
+  Definition prune (m : mgr) (h : N) : mgr :=
+    prune_from m (N.to_nat (N.min h (N.of_nat (length (best m))))).
 
   (** MinReorgIndex (manager.go:141-155): lowest best-chain block that still has a
       body below the tip, walking down *)
